@@ -361,6 +361,49 @@ theorem state_inside_publish (k : Ack.Kind) (c : Cfg) (o : Outcome α) (p : PubO
         | (simp [Effect.isPublish, Effect.isPublishCall, Effect.isPublishRet] at he; done)
         | rfl)
 
+/-- **a settlement made concurrently by the handler (helper goroutine) and the Router's own never both count**:
+    wherever the helper's call lands among the effects, the message ends with exactly the one of the two that came
+    first – the helper's if no Router settlement precedes it, else the Router's (which is then what `handle` alone
+    gives) – and no channel is closed twice -/
+theorem race_first_wins (k : Ack.Kind) (c : Cfg) (r : Result α) (p : PubOutcome) (s : Settle) (i : Nat) :
+    (settleOps ((handle c ⟨none, r⟩ p).take i) = [] → sentAfter k (handleRace c r p s i) = s.toSent) ∧
+    (settleOps ((handle c ⟨none, r⟩ p).take i) ≠ [] →
+        sentAfter k (handleRace c r p s i) = sentAfter k (handle c ⟨none, r⟩ p)) ∧
+    Ack.Res.panic ∉ (Ack.run (Ack.initSt k) (settleOps (handleRace c r p s i))).2 ∧
+    ¬ ((stateAfter k (handleRace c r p s i)).ackCh = .closed ∧ (stateAfter k (handleRace c r p s i)).nackCh = .closed) := by
+  have hsplit : settleOps ((handle c ⟨none, r⟩ p).take i) ++ settleOps ((handle c ⟨none, r⟩ p).drop i) =
+      [opOf (decision c ⟨none, r⟩ p)] := by
+    have := settleOps_handle c ⟨none, r⟩ p
+    simp only [selfOps, List.nil_append] at this
+    rw [← this]
+    unfold settleOps
+    rw [← List.filterMap_append, List.take_append_drop]
+  have hrace : settleOps (handleRace c r p s i) =
+      settleOps ((handle c ⟨none, r⟩ p).take i) ++ selfOps (some s) ++ settleOps ((handle c ⟨none, r⟩ p).drop i) := by
+    have hs : settleOps (selfEff (some s) : List (Effect α)) = selfOps (some s) := by cases s <;> rfl
+    simp [handleRace, settleOps, List.filterMap_append] at hs ⊢
+    rw [hs]
+  refine ⟨?_, ?_, Ack.never_panics k _, (Ack.chan_closed_iff k _).2.2⟩
+  · intro h0
+    unfold sentAfter stateAfter
+    rw [Ack.first_wins, hrace, h0]
+    cases s <;> simp [selfOps, Ack.firstSettle, Settle.toSent]
+  · intro hne
+    unfold sentAfter stateAfter
+    rw [Ack.first_wins, Ack.first_wins, hrace]
+    have hfull := settleOps_handle c ⟨none, r⟩ p
+    simp only [selfOps, List.nil_append] at hfull
+    rw [hfull]
+    generalize settleOps ((handle c ⟨none, r⟩ p).take i) = a at *
+    generalize settleOps ((handle c ⟨none, r⟩ p).drop i) = b at *
+    cases a with
+    | nil => exact absurd rfl hne
+    | cons x xs =>
+      simp at hsplit
+      obtain ⟨hx, hxs, hb⟩ := hsplit
+      subst hx; subst hxs; subst hb
+      cases decision c ⟨none, r⟩ p <;> simp [opOf, Ack.firstSettle]
+
 /-! ## non-vacuity: concrete instances -/
 
 example : handle ⟨.withPub, "out"⟩ ⟨none, .returns [1, 2, 3] false⟩ .accept =
@@ -378,6 +421,11 @@ example : sentAfter .zero (handle ⟨.withPub, "out"⟩ ⟨some .ack, (.panics .
 -- a publisher that refuses any call containing output 0: one call with all outputs, refused, Nack
 example : handleWith ⟨.withPub, "t"⟩ ⟨none, .returns [0, 1, 2] false⟩ (fun ms => if ms.contains 0 then .error else .accept) =
     [.handlerCalled, .addCtx [0, 1, 2], .publishCall "t" [0, 1, 2], .publishRet .error, .routerNack, .done] := by decide
+-- the helper's Nack lands right after the Router's Ack (index 3) / right before it (index 2)
+example : handleRace ⟨.withPub, "t"⟩ (.returns ([] : List Nat) false) .accept .nack 3 =
+    [.handlerCalled, .addCtx [], .routerAck, .selfNack, .done] := by decide
+example : sentAfter .new (handleRace ⟨.withPub, "t"⟩ (.returns ([] : List Nat) false) .accept .nack 3) = .ack ∧
+    sentAfter .new (handleRace ⟨.withPub, "t"⟩ (.returns ([] : List Nat) false) .accept .nack 2) = .nack := by decide
 -- the hypotheses of `publish_before_ack` / `publish_before_ack_idx` / `state_inside_publish` are satisfiable:
 example : handle ⟨.withPub, "t"⟩ ⟨none, .returns [5] false⟩ .accept =
     [.handlerCalled, .addCtx [5], .publishCall "t" [5], .publishRet .accept] ++ .routerAck :: [.done] := by decide
